@@ -73,8 +73,15 @@ func (a *Actor) bufSize(want int) int {
 		if want > 0 {
 			n = want
 		}
+		// the declared length comes from the file (a corrupted size field can declare gigabytes);
+		// the actor is harness code and must not be the one that runs out of memory
+		if n > 1<<16 {
+			n = 1 << 16
+		}
 	}
-	if want >= 0 && n > want && a.Piece != ActPieceBig {
+	// never ask for more than is still wanted: what an actor obtains is then a function of the
+	// byte stream it is handed, not of how the stream happens to be cut into pieces
+	if want >= 0 && n > want {
 		n = want
 	}
 	if n < 1 {
@@ -133,6 +140,9 @@ func (a *Actor) Run(r io.Reader, header string, declared int) error {
 				}
 			}
 			if err != nil {
+				if want >= 0 && len(inv.Got) >= want {
+					break
+				}
 				inv.Err = err.Error()
 				inv.EOF = err == io.EOF
 				break
@@ -144,6 +154,9 @@ func (a *Actor) Run(r io.Reader, header string, declared int) error {
 			inv.Got = append(inv.Got, buf[:m]...)
 		}
 		if err != nil {
+			if want >= 0 && len(inv.Got) >= want {
+				break // everything wanted was obtained; an error delivered with the last piece is not observed
+			}
 			inv.Err = err.Error()
 			inv.EOF = err == io.EOF
 			break
@@ -155,10 +168,15 @@ func (a *Actor) Run(r io.Reader, header string, declared int) error {
 		}
 	}
 	if a.Mode == ActOver {
-		for i := 0; i < 3; i++ {
-			m, _ := r.Read(buf[:16])
+		// keeps asking until 48 more bytes arrived or the reader refuses (counted in bytes, not in
+		// calls, so that the observation does not depend on piece sizes)
+		for tries := 0; len(inv.Extra) < 48 && tries < 64; tries++ {
+			m, err := r.Read(buf[:48-len(inv.Extra)])
 			if m > 0 {
 				inv.Extra = append(inv.Extra, buf[:m]...)
+			}
+			if err != nil || m == 0 {
+				break
 			}
 		}
 	}
